@@ -18,13 +18,13 @@ OBLIGATIONS = [
          enc=['prep_task'], sym='working directory set/unset, stdin file set/unset, and the output configuration', bounds='all combinations',
          outside='umask and the shell (set in echsx()/run_task() around the spawn)', stubs=['open/chdir stand-ins recording their arguments']),
     dict(name='pump_tee_ev3', src='h_pump.c', defs=['NEV=3'], units=[], incl=['src/echsx.c'], replay_units='all', replay_extra_units=['src/logger.c'], replay_libs=['-lev'],
-         unwind=5, unwindset={'data_cb.*': 6, 'sym_load.*': 8}, solver='minisat', slice_formula=True, timeout=900, mem_gb=12, object_bits=11, checks=['--bounds-check', '--pointer-check'],
+         unwind=5, unwindset={'data_cb.*': 6, 'sym_load.*': 8}, solver='cadical', timeout=900, mem_gb=12, object_bits=11, checks=['--bounds-check', '--pointer-check'],
          allow_nobody=['snprintf', 'strerror', '__errno_location'],
          enc=['data_cb'], sym='which watcher fires when, how much each splice moves, how much each sendfile call transfers, which streams have a tee file',
          bounds='3 callback invocations over the stdout and stderr watchers, <= 1000 bytes per splice, up to 3 partial sendfile transfers',
          outside='real pipes and files; the non-splice fallback path (this build has HAVE_SPLICE and HAVE_SENDFILE)', stubs=['splice/lseek/sendfile/close/ev_io_stop stand-ins modelling the mail file as a segment log']),
     dict(name='pump_tee_ev4', src='h_pump.c', defs=['NEV=4'], units=[], incl=['src/echsx.c'], replay_units='all', replay_extra_units=['src/logger.c'], replay_libs=['-lev'],
-         unwind=6, unwindset={'data_cb.*': 7, 'sym_load.*': 10}, solver='minisat', slice_formula=True, timeout=1800, mem_gb=12, object_bits=11, checks=['--bounds-check', '--pointer-check'], tiers=('thorough',),
+         unwind=6, unwindset={'data_cb.*': 7, 'sym_load.*': 10}, solver='cadical', timeout=1800, mem_gb=12, object_bits=11, checks=['--bounds-check', '--pointer-check'], tiers=('thorough',),
          allow_nobody=['snprintf', 'strerror', '__errno_location'],
          enc=['data_cb'], sym='as pump_tee_ev3', bounds='4 callback invocations', outside='as pump_tee_ev3', stubs=['as pump_tee_ev3']),
 ]
